@@ -61,7 +61,7 @@ def _clause_env(bound, ghosts, extra):
 def apply_contract(interp, c, func, args, kwargs):
     """Modular call: assert the precondition, havoc, assume the postcondition."""
     st = interp.st
-    st.used_contracts.add(c.qname)
+    st.used_contracts.add(getattr(c, 'key', c.qname))
     if c.returns is None and c.yields is None:
         from .api import _returns_a_value
         if c.returns_value is None:
